@@ -81,3 +81,15 @@ package taint
 //@   requires m != nil && m.Sinks != nil
 //@   ensures recorded: source.Instr != nil && sink.Instr != nil ==> result && has(m.Sinks, sink) && has(m.Sinks[sink], source) && m.Sinks[sink][source]
 //@   ensures no_instruction: source.Instr == nil || sink.Instr == nil ==> !result
+
+// ---------------------------------------------------------------------------
+// C02 (sanitizer half) / C01: one iteration of the traversal's main loop. Events are
+// local to the iteration (reset at the loop head).
+//  - a node that matches a sanitizer is not expanded: no successor is enqueued;
+//  - a node that is filtered out is not expanded either, and is not reported.
+//@ func Visitor.Visit
+//@   property C02 C01
+//@   option havoc:*
+//@   requires v != nil && s != nil
+//@   loop 1 body sanitizer_stops: called(isSanitizer, _, _, _) && retof(isSanitizer, _, _, _) ==> !called(addNext, _, _, _, _, _, _, _, _)
+//@   loop 1 body filtered_not_reported: called(isFiltered, _, _, _) && retof(isFiltered, _, _, _) ==> !called(addNext, _, _, _, _, _, _, _, _) && !called(addNewPathCandidate, _, _, _)
